@@ -3,8 +3,9 @@ From GoSse Require Import Base Fields Queue Replayers Fifo FifoFacts ReplayersPr
 From Coq Require Import Sorted.
 
 (* Refinement: every TTL > 0, every GCInterval (default, 0, smaller or larger than the TTL),
-   both ID modes, every history of Put/Replay/GC with arbitrary clock readings and writer
-   scripts: no panic, outputs = specification (vs_*: the list of accepted puts not yet collected) *)
+   both ID modes, every history of Put/Replay/GC - and of assignments to the exported field
+   GCInterval in between ([VSetGCI]) - with arbitrary clock readings and writer scripts:
+   no panic, outputs = specification (vs_*: the list of accepted puts not yet collected) *)
 Theorem C09_refines :
   forall ttl auto gci ops, (0 < ttl)%Z -> (N.of_nat (length ops) <= two64)%N ->
   exists s tr, vr_new ttl auto gci = Some s /\ vr_trace s ops = (tr, true) /\
